@@ -45,9 +45,18 @@ def _as(cont, chunk):
 class Interp:
     """Executes ops against a real Parser (or ParserQueue) and the prefix model."""
 
-    def __init__(self, data, target='parser'):
+    def __init__(self, data, target='parser', msgs=None):
         self.data = list(data)
         self.target = target
+        # volume cases are built from a list of messages: the expected output is then known by construction
+        # (independently of mido.parse_all, which shares the queue with the code under test)
+        self.known = None
+        if msgs is not None:
+            import itertools
+            encs = [R.ref_encode(d) for d in msgs]
+            assert [b for e in encs for b in e] == self.data
+            self.known = ([mido.Message(d['type'], **{k: v for k, v in d.items() if k != 'type'}) for d in msgs],
+                          list(itertools.accumulate(len(e) for e in encs)))
         self.p = mido.Parser() if target == 'parser' else ParserQueue()
         # a bystander instance of the same class, fed other bytes in between: instances must not share state
         self.other = mido.Parser() if target == 'parser' else ParserQueue()
@@ -63,7 +72,11 @@ class Interp:
     # model
     def produced(self):
         if getattr(self, '_prod_pos', None) != self.pos:
-            self._prod = mido.parse_all(self.data[:self.pos])
+            if self.known is not None:
+                import bisect
+                self._prod = self.known[0][:bisect.bisect_right(self.known[1], self.pos)]
+            else:
+                self._prod = mido.parse_all(self.data[:self.pos])
             self._prod_pos = self.pos
         return self._prod
 
@@ -205,6 +218,10 @@ class Interp:
         self.step(('iter_all',))
         self.step(('get',))
         total = mido.parse_all(list(self.data))
+        if self.known is not None and (len(total) != len(self.known[0]) or any(
+                not (a == b) for a, b in zip(total, self.known[0]))):
+            self._fail('total', f'parse_all(stream) returns {len(total)} messages, the stream is the concatenation of '
+                                f'{len(self.known[0])} messages')
         if len(self.got) != len(total) or any(not (a == b) for a, b in zip(self.got, total)):
             self._fail('total', f'retrieved {len(self.got)} messages, parse_all(stream) has {len(total)}')
         return self.fails
@@ -217,7 +234,7 @@ def run_case(case):
         from checks import c10_concurrency as C10
         return C10.run_case(case)
     LAST_TAGS.clear()
-    it = Interp(case['data'], case.get('target', 'parser'))
+    it = Interp(case['data'], case.get('target', 'parser'), case.get('msgs'))
     for op in case['ops']:
         it.step(tuple(op))
     fs = it.finish()
@@ -396,16 +413,20 @@ def volume_case(n, chunk, target):
 
 def huge_cases():
     # more than 2**16 messages pending before the first retrieval; one sysex longer than 2**16 bytes fed in pieces
-    data = []
-    for i in range(70000):
-        data += [0xD0 | (i % 16), i % 128]
-    yield {'data': data, 'ops': [['feed', 50000, 'bytes'], ['pending'], ['feed', 90000, 'list'], ['pending'], ['get']],
-           'target': 'parser'}
-    yield {'data': data, 'ops': [['feed', 140000, 'bytes'], ['iter_one'], ['pending']], 'target': 'queue'}
-    sx = [0x91, 1, 2, 0xF0] + [(i * 3) % 128 for i in range(70000)] + [0xF7, 0x81, 3, 4]
-    yield {'data': sx, 'ops': [['feed', 30000, 'bytes'], ['get'], ['feed', 30000, 'bytearray'], ['pending'],
-                               ['feed', 9000, 'list'], ['feed', 2000, 'bytes']], 'target': 'parser'}
-    yield {'data': sx, 'ops': [['feed', 66000, 'bytes'], ['feed', 1, 'list'], ['pending']], 'target': 'queue'}
+    msgs = [{'type': 'aftertouch', 'channel': i % 16, 'value': i % 128, 'time': 0} for i in range(70000)]
+    data = [b for d in msgs for b in R.ref_encode(d)]
+    yield {'data': data, 'msgs': msgs, 'target': 'parser',
+           'ops': [['feed', 50000, 'bytes'], ['pending'], ['feed', 90000, 'list'], ['pending'], ['get']]}
+    yield {'data': data, 'msgs': msgs, 'ops': [['feed', 140000, 'bytes'], ['iter_one'], ['pending']], 'target': 'queue'}
+    yield {'data': data, 'msgs': msgs, 'ops': [['feed', 140000, 'bytes'], ['iter_all']], 'target': 'parser'}
+    smsgs = [{'type': 'note_on', 'channel': 1, 'note': 1, 'velocity': 2, 'time': 0},
+             {'type': 'sysex', 'data': [(i * 3) % 128 for i in range(70000)], 'time': 0},
+             {'type': 'note_off', 'channel': 1, 'note': 3, 'velocity': 4, 'time': 0}]
+    sx = [b for d in smsgs for b in R.ref_encode(d)]
+    yield {'data': sx, 'msgs': smsgs, 'target': 'parser',
+           'ops': [['feed', 30000, 'bytes'], ['get'], ['feed', 30000, 'bytearray'], ['pending'], ['feed', 9000, 'list'],
+                   ['feed', 2000, 'bytes']]}
+    yield {'data': sx, 'msgs': smsgs, 'ops': [['feed', 66000, 'bytes'], ['feed', 1, 'list'], ['pending']], 'target': 'queue'}
 
 
 def main(ctx):
